@@ -127,7 +127,7 @@ def labelled(shape, dtype=np.complex128, layout="C"):
     return a
 
 
-def layouts(viol, site, when, fn, shape, ref):
+def layouts(viol, site, when, fn, shape, ref, gather=True):
     """The same values in Fortran order and as a strided view must be moved to the same places."""
     for lay in ("F", "S"):
         x = labelled(shape, np.complex128, lay)
@@ -138,6 +138,32 @@ def layouts(viol, site, when, fn, shape, ref):
                              detail="%s input: result differs from the C-contiguous result" % ("Fortran-ordered" if lay == "F" else "strided")))
         if not np.array_equal(x, x0):
             viol.append(dict(oracle="input-mutated", key=dict(site=site, when=when), detail="%s-layout input modified" % lay))
+    # the same for element types other than complex128: these functions only move elements, so integers, booleans and
+    # single-precision values must land in the same places, unchanged
+    for dt_ in ((np.int64, np.int16, np.bool_, np.float32) if gather else ()):
+        xi = labelled(shape, np.float64)
+        xi = (xi % 2 == 1) if dt_ is np.bool_ else xi.astype(dt_)
+        want = apply_src_like(ref, xi)
+        try:
+            got = np.asarray(fn(xi))
+        except Exception:
+            continue     # a refusal is loud
+        if list(got.shape) != list(want.shape) or not np.array_equal(got.astype(np.float64), want.astype(np.float64)):
+            viol.append(dict(oracle="index-map", key=dict(site=site, when=when + ", %s elements" % np.dtype(dt_).name),
+                             detail="%s input: elements are not moved as for complex input (got %s, expected %s)" % (
+                                 np.dtype(dt_).name, np.array2string(got.ravel()[:10]), np.array2string(want.ravel()[:10]))))
+
+
+def apply_src_like(ref, xi):
+    """ref was produced by a GATHER map from labelled(shape) (element k carries the label k+1 in its real part, 0 = padding):
+    move xi's elements the same way."""
+    lab = np.real(ref)
+    out = np.zeros(ref.shape, dtype=xi.dtype)
+    flat = xi.ravel()
+    idx = np.rint(lab).astype(np.int64) - 1
+    ok = (lab > 0) & (idx < flat.size) & (np.abs(lab - np.rint(lab)) < 1e-9)
+    out[ok] = flat[idx[ok]]
+    return out
 
 
 def _cmp(viol, site, when, got, ref, detail=""):
@@ -267,7 +293,7 @@ def run_case(case, seed):
         layouts(viol, "block.array_to_blocks", when, lambda a: sp.array_to_blocks(a, B, S), ish, ref)
         yl = labelled(list(ref.shape))
         layouts(viol, "block.blocks_to_array", when, lambda a: sp.blocks_to_array(a, ish, B, S), list(ref.shape),
-                (im.gather_matrix(src, dense.prod(ish)).T @ yl.ravel()).reshape(ish))
+                (im.gather_matrix(src, dense.prod(ish)).T @ yl.ravel()).reshape(ish), gather=False)
         if not np.array_equal(x, x0):
             viol.append(dict(oracle="input-mutated", key=dict(site="block.array_to_blocks", when=when), detail=""))
         if ref.size == 0:
